@@ -5,6 +5,7 @@ import GqlVerif.Proofs.C17FuelSpec
 import GqlVerif.Proofs.SerdeFuelWitness
 import GqlVerif.Proofs.SerdeFuelCodegen
 import GqlVerif.Proofs.AcyclicModulesClasses
+import GqlVerif.Proofs.ModuleOkInputsClasses
 open GqlVerif.C17
 #print axioms search_guarded_eq
 #print axioms search_guarded_total
@@ -105,3 +106,10 @@ open GqlVerif.C17
 #print axioms GqlVerif.AcyclicM.spread_cycle_not_sameLevelAcyclic
 #print axioms GqlVerif.AcyclicM.gCtx_sameLevelRanked
 #print axioms GqlVerif.AcyclicM.mix_spreadAcyclic_only
+-- the class theorems with the remaining hypothesis on the INPUT (docs/REVIEW_3.md finding 3; Proofs/ModuleOkInputsClasses.lean, P42)
+#print axioms GqlVerif.MOK.moduleOk_iff_inputs
+#print axioms GqlVerif.MOK.reviewer_counterexample
+#print axioms GqlVerif.MOK.class_module_envOK_inputs
+#print axioms GqlVerif.MOK.class_de_never_out_of_fuel_inputs
+#print axioms GqlVerif.MOK.class_de_fuel_indep_inputs
+#print axioms GqlVerif.MOK.class_roundtrip_never_out_of_fuel_inputs
